@@ -239,6 +239,7 @@ func c13BuildSpecials() {
 		c13Call("hCtx", s1), c13Call("hCtxSub", n1, n2), c13Call("hCtxJoin", s1, c13Str("k1")), c13Call("hCtxJoin", s1), c13Call("hCtxJoin"), c13Call("hCtxSum", n1, n2, c13Int(3)), c13Call("hCtxSum", n1), c13Call("hErrS", s1), c13Call("hErrI", n1), c13Call("hFSub", c13P("f1"), c13Lit("f", "0.5")),
 		c13Call("hUSum", c13Int(1), c13Int(2)), c13Call("hSub64", c13P("i64"), c13Int(2)), c13Call("hRep", s1, c13Int(2)), c13Call("hRep", s1, c13P("n0")),
 		c13Call("hItemTitle", c13P("st")), c13Call("hPItemCount", c13P("ps")), c13Call("hArr2", c13P("li")), c13Call("hArr2", c13P("li1")),
+		c13Call("hSlug", s1), c13Call("hSlug", n1), c13Pipe(n1, c13Call("hSlug")), c13Call("hSlug", c13P("bt")), c13Pipe(c13P("f1"), c13Call("hSlug")), c13Call("hSlug", c13Str("k1")),
 	} {
 		add("call/custom", e)
 	}
